@@ -10,8 +10,14 @@
 //   of zoom_image / zoom_image_in_place and all three ZoomOptions; oracles: the harness's own separable
 //   "overlap" (step-function, count preserving) resampling in physical coordinates, conservation of the
 //   sum and of the centre of mass when the new grid covers the object, uniform regions under
-//   preserve_values, the documented global factors between the options, agreement of all overloads.
+//   preserve_values, the documented global factors between the options, agreement of all overloads (incl. the 2-D
+//   PixelsOnCartesianGrid overload called directly with independent x and y zooms, against the resampling reference and
+//   against the 3-D overload on the same data held as a one-plane volume), and the library's centre-of-gravity functions
+//   against the harness's own centre of mass.
+// Parts "overlap", "viewgram", "issrb", "extend": see c15_more.h (overlap_interpolate called directly with a pre-filled
+//   output, zoom_viewgram(s), inverse_SSRB, extend_segment).
 #include "stir_gen.h"
+#include "c15_more.h"
 #include "stir/ProjDataInfoCylindricalNoArcCorr.h"
 #include "stir/ProjDataInMemory.h"
 #include "stir/ProjDataInterfile.h"
@@ -26,6 +32,8 @@
 #include "stir/VoxelsOnCartesianGrid.h"
 #include "stir/PixelsOnCartesianGrid.h"
 #include "stir/IndexRange3D.h"
+#include "stir/IndexRange2D.h"
+#include "stir/Coordinate2D.h"
 #include "stir/CartesianCoordinate3D.h"
 #include <map>
 #include <set>
@@ -715,6 +723,118 @@ const double TOL_FACTOR = 1e-5;   // DESIGN: options differ by the global factor
 const double TOL_OVERLOAD = 1e-5; // DESIGN: all overloads and the two-step composition agree
 const double TOL_ROUTES = 5e-5;   // routes through the transaxial overloads (different arithmetic: per-plane 2D zoom, z not resampled)
 
+// ---- the library's centre-of-gravity functions vs the harness's own centre of mass ---------------------------------
+// Tolerance: the library accumulates sum_i i*a_i and the sums in float over up to 60^3 voxels; compared relative to the
+// extent of the grid (|origin| + size): observed maxima see stats; a voxel index off by one moves the result by >= extent/61.
+const double TOL_COG = 1e-5;
+
+Result
+check_centre_of_gravity(const Img& im, const Vol& v, const std::string& which)
+{
+  const double sum = v.sum();
+  if (sum == 0)
+    { // centre_of_gravity.h, find_centre_of_gravity: "When the sum is 0, error() is called"
+      bool reported = false;
+      try
+        {
+          find_centre_of_gravity_in_mm(im);
+        }
+      catch (const std::runtime_error&)
+        {
+          reported = true;
+        }
+      VF_CHECK(reported, "find_centre_of_gravity_in_mm(", which, "): the image sums to 0 but no error() was raised");
+      stats().cls("cog: all-zero image reported with error()");
+      return Result::pass();
+    }
+  double com[3];
+  centre_of_mass(v, com);
+  double extent[3];
+  for (int a = 0; a < 3; ++a)
+    extent[a] = v.g.v[a] * v.g.n(a) + std::fabs(v.g.o[a]) + v.g.v[a] * std::max(std::abs(v.g.mn[a]), std::abs(v.g.mx[a]));
+  double abs_sum = 0;
+  for (double x : v.d)
+    abs_sum += std::fabs(x);
+  const bool non_negative = abs_sum == sum; // with cancelling signs the quotient is ill-conditioned: only the per-plane part then
+  const CartesianCoordinate3D<float> lib = find_centre_of_gravity_in_mm(im);
+  const BasicCoordinate<3, float> lib_idx = find_centre_of_gravity(static_cast<const Array<3, float>&>(im));
+  const BasicCoordinate<3, float> lib_unw = find_unweighted_centre_of_gravity(static_cast<const Array<3, float>&>(im));
+  for (int a = 0; a < 3 && non_negative; ++a)
+    {
+      stats().maxi("cog: max |find_centre_of_gravity_in_mm - own| / extent", std::fabs(double(lib[a + 1]) - com[a]) / extent[a]);
+      VF_CHECK(std::fabs(double(lib[a + 1]) - com[a]) <= TOL_COG * extent[a], "find_centre_of_gravity_in_mm(", which, ") on axis ", a, " = ", lib[a + 1],
+               " mm, the centre of mass of the voxel centres is ", com[a], " mm; grid ", show(v.g));
+      // index units: x_phys = x_index*voxel_size + origin (zoom.h)
+      const double idx = (com[a] - v.g.o[a]) / v.g.v[a];
+      const double idx_scale = std::max(std::abs(v.g.mn[a]), std::abs(v.g.mx[a])) + v.g.n(a);
+      stats().maxi("cog: max |find_centre_of_gravity - own| / index extent", std::fabs(double(lib_idx[a + 1]) - idx) / idx_scale);
+      VF_CHECK(std::fabs(double(lib_idx[a + 1]) - idx) <= TOL_COG * idx_scale, "find_centre_of_gravity(", which, ") on axis ", a, " = ", lib_idx[a + 1],
+               " (index units), the centre of mass is at index ", idx);
+      // "C_k = sum i_k A": the centre of gravity times the sum
+      stats().maxi("cog: max |find_unweighted_centre_of_gravity - own*sum| / (index extent*sum)", std::fabs(double(lib_unw[a + 1]) - idx * sum) / (idx_scale * sum));
+      VF_CHECK(std::fabs(double(lib_unw[a + 1]) - idx * sum) <= TOL_COG * idx_scale * sum, "find_unweighted_centre_of_gravity(", which, ") on axis ", a, " = ",
+               lib_unw[a + 1], ", sum_i i*a_i = ", idx * sum);
+    }
+  // per plane
+  VectorWithOffset<CartesianCoordinate3D<float>> all;
+  VectorWithOffset<float> weights;
+  find_centre_of_gravity_in_mm_per_plane(all, weights, im);
+  VF_CHECK(all.get_min_index() == v.g.mn[0] && all.get_max_index() == v.g.mx[0] && weights.get_min_index() == v.g.mn[0] && weights.get_max_index() == v.g.mx[0],
+           "find_centre_of_gravity_in_mm_per_plane(", which, "): results are indexed ", all.get_min_index(), "..", all.get_max_index(), ", the planes are ", v.g.mn[0], "..",
+           v.g.mx[0]);
+  for (int z = v.g.mn[0]; z <= v.g.mx[0]; ++z)
+    {
+      double ps = 0, pa = 0, my = 0, mx = 0;
+      for (int y = v.g.mn[1]; y <= v.g.mx[1]; ++y)
+        for (int x = v.g.mn[2]; x <= v.g.mx[2]; ++x)
+          {
+            const double w = v.at(z, y, x);
+            ps += w;
+            pa += std::fabs(w);
+            my += w * v.g.centre(1, y);
+            mx += w * v.g.centre(2, x);
+          }
+      // "The weight is currently simply the sum of the voxel values in that plane, thresholded to be at least 0"
+      const double want_w = std::max(ps, 0.);
+      VF_CHECK(std::fabs(double(weights[z]) - want_w) <= 1e-5 * std::max(pa, 1e-30), "find_centre_of_gravity_in_mm_per_plane(", which, "): weight of plane ", z, " = ",
+               weights[z], ", the plane sums to ", ps);
+      VF_CHECK(std::fabs(double(all[z].z()) - v.g.centre(0, z)) <= TOL_COG * extent[0], "find_centre_of_gravity_in_mm_per_plane(", which, "): z of plane ", z, " = ",
+               all[z].z(), " mm, the plane is at ", v.g.centre(0, z), " mm");
+      if (ps > 0 && pa == ps && weights[z] > 0)
+        { // (for a zero weight "the x,y coordinates are simply set to 0": nothing to compare with)
+          stats().maxi("cog: max |per-plane centre - own| / extent",
+                       std::max(std::fabs(double(all[z].y()) - my / ps) / extent[1], std::fabs(double(all[z].x()) - mx / ps) / extent[2]));
+          VF_CHECK(std::fabs(double(all[z].y()) - my / ps) <= TOL_COG * extent[1] && std::fabs(double(all[z].x()) - mx / ps) <= TOL_COG * extent[2],
+                   "find_centre_of_gravity_in_mm_per_plane(", which, "): plane ", z, " has its centre at (y ", all[z].y(), ", x ", all[z].x(),
+                   ") mm, the centre of mass of the voxel centres is (y ", my / ps, ", x ", mx / ps, ") mm; grid ", show(v.g));
+        }
+    }
+  stats().cls("cog: library vs own centre of mass");
+  return Result::pass();
+}
+
+//! dense copy of a 2-D image as a one-plane volume at plane \a z with the z sampling of \a like
+Vol
+vol_of_plane(const PixelsOnCartesianGrid<float>& im, const Grid& like, int z)
+{
+  Vol v;
+  v.g = like;
+  v.g.mn[0] = v.g.mx[0] = z;
+  v.g.mn[1] = im.get_min_y();
+  v.g.mx[1] = im.get_max_y();
+  v.g.mn[2] = im.get_min_x();
+  v.g.mx[2] = im.get_max_x();
+  v.g.v[1] = im.get_pixel_size().y();
+  v.g.v[2] = im.get_pixel_size().x();
+  v.g.o[1] = im.get_origin().y();
+  v.g.o[2] = im.get_origin().x();
+  v.d.resize(std::size_t(v.g.size()));
+  for (int y = v.g.mn[1]; y <= v.g.mx[1]; ++y)
+    for (int x = v.g.mn[2]; x <= v.g.mx[2]; ++x)
+      v.at(z, y, x) = im[y][x];
+  return v;
+}
+
 Result
 check_zoom(const json& c)
 {
@@ -918,6 +1038,159 @@ check_zoom(const json& c)
       }
     }
 
+  // ---- clause Z5b: the defaulted ZoomOptions argument is preserve_sum (zoom.h) ------------------------------------------
+  {
+    const Img dflt = zoom_image(in, zooms, offs, sizes);
+    VF_TRY(same_values(vol_of(dflt), vA[0], 0., "zoom_image(image,zooms,offsets,sizes) without ZoomOptions vs preserve_sum", nullptr, S[0]));
+    Img b(in);
+    zoom_image_in_place(b, zooms, offs, sizes);
+    VF_TRY(same_values(vol_of(b), vA[0], 0., "zoom_image_in_place(image,zooms,offsets,sizes) without ZoomOptions vs preserve_sum", nullptr, S[0]));
+    Img out(A[0].get_exam_info_sptr(), A[0].get_index_range(), A[0].get_origin(), A[0].get_voxel_size());
+    out.fill(float(55. * c["amp"].get<double>()));
+    zoom_image(out, in);
+    VF_TRY(same_values(vol_of(out), vA[0], 0., "zoom_image(out,in) without ZoomOptions vs preserve_sum", nullptr, S[0]));
+    // ZoomOptions.h: "calls error() if out-of-range"
+    bool reported = false;
+    try
+      {
+        ZoomOptions bad(static_cast<ZoomOptions::Scaling>(3 + int(c["sizes"][0].get<int>() % 3)));
+        (void)bad;
+      }
+    catch (const std::runtime_error&)
+      {
+        reported = true;
+      }
+    VF_CHECK(reported, "ZoomOptions accepted an out-of-range scaling value");
+  }
+
+  // ---- clause Z6: the 2-D overload zoom_image(PixelsOnCartesianGrid& out, const PixelsOnCartesianGrid& in, ZoomOptions) ----
+  //   called directly on one plane of the input with independent x and y zooms, offsets, sizes and index ranges (the
+  //   y,x sampling of the new image of this case, and of the free output grid if there is one), output pre-filled.
+  //   Oracles: (i) the step-function resampling of the plane in physical coordinates, times the global factor that the
+  //   3-D documentation gives for a volume whose z sampling is not changed (1, zoom_x*zoom_y, zoom_y);
+  //   (ii) the 3-D overload on the same data held as a one-plane volume.
+  {
+    const int zp = vin.g.mn[0] + int(c.value("plane2d", 0) % vin.g.n(0));
+    const PixelsOnCartesianGrid<float> in2 = in.get_plane(zp);
+    Img in3(in.get_exam_info_sptr(), IndexRange3D(zp, zp, vin.g.mn[1], vin.g.mx[1], vin.g.mn[2], vin.g.mx[2]), in.get_origin(), in.get_voxel_size());
+    in3[zp] = in[zp];
+    const Vol vin3 = vol_of(in3);
+    struct G2
+    {
+      int mny, ny, mnx, nx;
+      float oy, ox, vy, vx;
+      const char* name;
+    };
+    std::vector<G2> grids;
+    grids.push_back({ gout.mn[1], gout.n(1), gout.mn[2], gout.n(2), A[0].get_origin().y(), A[0].get_origin().x(), A[0].get_voxel_size().y(),
+                      A[0].get_voxel_size().x(), "y,x sampling of the new image" });
+    if (c["out2"].is_object())
+      {
+        const json& j = c["out2"];
+        grids.push_back({ j["min"][1].get<int>(), j["n"][1].get<int>(), j["min"][2].get<int>(), j["n"][2].get<int>(), j["o"][1].get<float>(), j["o"][2].get<float>(),
+                          j["v"][1].get<float>(), j["v"][2].get<float>(), "y,x sampling of the free output grid" });
+      }
+    { // the sampling of the input itself on another (or, one time in four, the same) index range: the "nothing to do" shortcut
+      // of the 2-D overload applies only when the index ranges agree as well
+      const int k = c.value("plane2d", 0) + vin.g.n(1) + 2 * vin.g.n(2);
+      const int dy0 = k % 4 == 0 ? 0 : (k % 3) - 1, dy1 = k % 4 == 0 ? 0 : ((k / 3) % 3) - 1, dx0 = k % 4 == 0 ? 0 : ((k / 9) % 3) - 1,
+                dx1 = k % 4 == 0 ? 0 : ((k / 27) % 3) - 1;
+      const int mny = vin.g.mn[1] + dy0, mxy = std::max(mny, vin.g.mx[1] + dy1), mnx = vin.g.mn[2] + dx0, mxx = std::max(mnx, vin.g.mx[2] + dx1);
+      grids.push_back({ mny, mxy - mny + 1, mnx, mxx - mnx + 1, in.get_origin().y(), in.get_origin().x(), in.get_voxel_size().y(), in.get_voxel_size().x(),
+                        "sampling of the input on another index range" });
+      stats().cls(k % 4 == 0 ? "zoom: 2-D overload with nothing to do" : "zoom: 2-D overload, same sampling, other index range");
+    }
+    for (const G2& g2 : grids)
+      {
+        const double zy = vin.g.v[1] / double(g2.vy), zx = vin.g.v[2] / double(g2.vx);
+        if (std::fabs(zy - zx) > 1e-3 * zx)
+          stats().cls("zoom: 2-D overload called directly with zoom_x != zoom_y");
+        else
+          stats().cls("zoom: 2-D overload called directly with zoom_x == zoom_y");
+        const double f2[3] = { 1., zx * zy, zy };
+        Vol ref2;
+        for (int o = 0; o < 3; ++o)
+          {
+            const ZoomOptions opt(all_options[o]);
+            PixelsOnCartesianGrid<float> out2(IndexRange2D(g2.mny, g2.mny + g2.ny - 1, g2.mnx, g2.mnx + g2.nx - 1),
+                                              CartesianCoordinate3D<float>(in.get_origin().z(), g2.oy, g2.ox), Coordinate2D<float>(g2.vy, g2.vx));
+            out2.fill(float(321. * c["amp"].get<double>()));
+            if (o == 0 && c.value("plane2d", 0) % 2 == 1)
+              zoom_image(out2, in2); // defaulted ZoomOptions
+            else
+              zoom_image(out2, in2, opt);
+            VF_CHECK(out2.get_min_y() == g2.mny && out2.get_y_size() == g2.ny && out2.get_min_x() == g2.mnx && out2.get_x_size() == g2.nx,
+                     "2-D zoom_image changed the index range of the output image");
+            const Vol got = vol_of_plane(out2, vin.g, zp);
+            if (o == 0)
+              ref2 = reference_zoom(vin3, got.g);
+            Vol want = ref2;
+            for (auto& x : want.d)
+              x *= f2[o];
+            const double S2 = vin3.maxabs() / (zx * zy) * f2[o];
+            VF_TRY(same_values(got, want, TOL_REF,
+                               cat("2-D zoom_image(out,in) (", option_names[o], ", ", g2.name, ", zoom_x ", zx, ", zoom_y ", zy,
+                                   ") vs overlap resampling of the plane in physical coordinates x ", f2[o]),
+                               "zoom: max rel err of the 2-D overload vs reference resampling", S2));
+            Img out3(in.get_exam_info_sptr(), IndexRange3D(zp, zp, g2.mny, g2.mny + g2.ny - 1, g2.mnx, g2.mnx + g2.nx - 1),
+                     CartesianCoordinate3D<float>(in.get_origin().z(), g2.oy, g2.ox), CartesianCoordinate3D<float>(in.get_voxel_size().z(), g2.vy, g2.vx));
+            out3.fill(float(-17. * c["amp"].get<double>()));
+            zoom_image(out3, in3, opt);
+            VF_TRY(same_values(got, vol_of(out3), TOL_OVERLOAD,
+                               cat("2-D zoom_image(out,in) (", option_names[o], ", ", g2.name, ", zoom_x ", zx, ", zoom_y ", zy,
+                                   ") vs the 3-D overload on the same plane held as a one-plane volume"),
+                               "zoom: max rel diff 2-D overload vs 3-D overload on a one-plane volume", S2));
+          }
+      }
+  }
+
+  // ---- clause Z7: the library's centre-of-gravity functions (used as observation point by the library's own tests) -------
+  VF_TRY(check_centre_of_gravity(in, vin, "input image"));
+  VF_TRY(check_centre_of_gravity(A[0], vA[0], "zoomed image"));
+  if (vin.g.n(0) >= 2 && !empty)
+    { // a plane with a negative sum: its weight is documented to be 0
+      Img neg(in);
+      const int zn = vin.g.mn[0] + int(c.value("plane2d", 0) % vin.g.n(0));
+      neg[zn] *= -1.F;
+      const Vol vneg = vol_of(neg);
+      if (vneg.sum() != 0)
+        VF_TRY(check_centre_of_gravity(neg, vneg, "input image with one plane negated"));
+    }
+
+  // ---- clause Z8: indices <-> millimetres (DiscretisedDensityOnCartesianGrid.inl): the relation every clause above rests on ---
+  //   zoom.h: x_phys = x_index*voxel_size.x + origin.x, via DiscretisedDensity::get_physical_coordinates_for_indices
+  {
+    SplitMix gi(c["data_seed"].get<uint64_t>() ^ 0x5bd1e995ULL);
+    const Img* both[2] = { &in, &A[0] };
+    for (const Img* im : both)
+      {
+        const Grid g = grid_of(*im);
+        for (int k = 0; k < 3; ++k)
+          {
+            BasicCoordinate<3, float> fi;
+            for (int a = 0; a < 3; ++a)
+              fi[a + 1] = float(gi.real(g.mn[a] - 2., g.mx[a] + 2.));
+            const CartesianCoordinate3D<float> ph = im->get_physical_coordinates_for_indices(fi);
+            const BasicCoordinate<3, float> back = im->get_index_coordinates_for_physical_coordinates(ph);
+            const BasicCoordinate<3, int> closest = im->get_indices_closest_to_physical_coordinates(ph);
+            for (int a = 0; a < 3; ++a)
+              {
+                const double want = double(fi[a + 1]) * g.v[a] + g.o[a];
+                const double extent = std::fabs(g.o[a]) + g.v[a] * (std::max(std::abs(g.mn[a]), std::abs(g.mx[a])) + 3);
+                VF_CHECK(std::fabs(double(ph[a + 1]) - want) <= 1e-5 * extent, "get_physical_coordinates_for_indices: index ", fi[a + 1], " on axis ", a, " is at ",
+                         ph[a + 1], " mm, index*voxel_size+origin = ", want, "; grid ", show(g));
+                // back to indices: the difference of two numbers of size `extent` divided by the voxel size
+                VF_CHECK(std::fabs(double(back[a + 1]) - double(fi[a + 1])) <= 1e-5 * extent / g.v[a], "get_index_coordinates_for_physical_coordinates(", ph[a + 1],
+                         " mm) on axis ", a, " = ", back[a + 1], ", the point was made from index ", fi[a + 1]);
+                const double frac = double(fi[a + 1]) - std::floor(double(fi[a + 1]));
+                if (std::fabs(frac - .5) > 1e-3 + 1e-5 * extent / g.v[a])
+                  VF_CHECK(closest[a + 1] == int(std::floor(double(fi[a + 1]) + .5)), "get_indices_closest_to_physical_coordinates on axis ", a, " = ", closest[a + 1],
+                           " for a point made from index ", fi[a + 1]);
+              }
+          }
+      }
+  }
+
   // C2: an arbitrary output grid (index range, origin and voxel sizes not following the conventions of the
   //     parameter overloads): zoom.h promises "physical coordinates of a point remain the same"
   if (c["out2"].is_object())
@@ -940,6 +1213,34 @@ check_zoom(const json& c)
       else
         VF_CHECK(got.maxabs() == 0, "output grid does not meet the object but the result is not zero");
     }
+
+  // C3: the sampling of the input itself on another (one time in four: the same) index range, output pre-filled: the
+  //     "nothing to do" shortcut of zoom_image(out,in) applies only when the index ranges agree as well
+  {
+    const int k = c.value("plane2d", 0) + vin.g.n(0) + 2 * vin.g.n(1) + 5 * vin.g.n(2);
+    int d[6];
+    for (int i = 0, kk = k; i < 6; ++i, kk /= 3)
+      d[i] = k % 4 == 0 ? 0 : (kk % 3) - 1;
+    const int mz = vin.g.mn[0] + d[0], Mz = std::max(mz, vin.g.mx[0] + d[1]), my = vin.g.mn[1] + d[2], My = std::max(my, vin.g.mx[1] + d[3]),
+              mx = vin.g.mn[2] + d[4], Mx = std::max(mx, vin.g.mx[2] + d[5]);
+    stats().cls(k % 4 == 0 ? "zoom: 3-D output-image overload with nothing to do" : "zoom: 3-D output-image overload, same sampling, other index range");
+    for (int o = 0; o < 3; ++o)
+      {
+        Img out(in.get_exam_info_sptr(), IndexRange3D(mz, Mz, my, My, mx, Mx), in.get_origin(), in.get_voxel_size());
+        out.fill(float(-9. * c["amp"].get<double>()));
+        zoom_image(out, in, ZoomOptions(all_options[o]));
+        const Vol got = vol_of(out);
+        VF_CHECK(got.g.mn[0] == mz && got.g.mx[0] == Mz && got.g.mn[1] == my && got.g.mx[1] == My && got.g.mn[2] == mx && got.g.mx[2] == Mx,
+                 "zoom_image(out,in) changed the index range of the output image to ", show(got.g));
+        Vol want = got; // all zoom factors are 1: the three options agree; voxels outside the input are 0
+        for (int z = mz; z <= Mz; ++z)
+          for (int y = my; y <= My; ++y)
+            for (int x = mx; x <= Mx; ++x)
+              want.at(z, y, x) = (z >= vin.g.mn[0] && z <= vin.g.mx[0] && y >= vin.g.mn[1] && y <= vin.g.mx[1] && x >= vin.g.mn[2] && x <= vin.g.mx[2]) ? vin.at(z, y, x) : 0.;
+        VF_TRY(same_values(got, want, 1e-6, cat("zoom_image(out,in) (", option_names[o], ") onto the sampling of the input with index range ", show(got.g)), nullptr,
+                           vin.maxabs()));
+      }
+  }
 
   // D/E1: the transaxial overloads (one zoom for x and y, one new size, planes kept).
   //   They index the planes of the new image (z from 0, "standard STIR conventions") with the input plane
@@ -979,6 +1280,14 @@ check_zoom(const json& c)
             }
           VF_TRY(same_values(vol_of(d), vwant, tol_d, cat("zoom_image(image,zoom,x_off,y_off,size) (", option_names[o], ") vs 3D overload with zoom_z=1"),
                              "zoom: max rel diff transaxial overloads vs 3D overload", SD));
+          if (o == 0)
+            { // defaulted ZoomOptions
+              const Img dd = zoom_image(in, zxy, offs.x(), offs.y(), nxy);
+              VF_TRY(same_values(vol_of(dd), vol_of(d), 0., "zoom_image(image,zoom,x_off,y_off,size) without ZoomOptions vs preserve_sum", nullptr, SD));
+              Img ddip(in);
+              zoom_image_in_place(ddip, zxy, offs.x(), offs.y(), nxy);
+              VF_TRY(same_values(vol_of(ddip), vol_of(d), 0., "zoom_image_in_place(image,zoom,x_off,y_off,size) without ZoomOptions vs preserve_sum", nullptr, SD));
+            }
           Img dip(in);
           zoom_image_in_place(dip, zxy, offs.x(), offs.y(), nxy, opt);
           VF_TRY(same_grid(grid_of(dip), vwant.g, cat("zoom_image_in_place(image,zoom,x_off,y_off,size) (", option_names[o], ") grid")));
@@ -1230,21 +1539,43 @@ gen_zoom(Src& s, int size)
         }
       c["out2"] = { { "n", { on[0], on[1], on[2] } }, { "min", { omn[0], omn[1], omn[2] } }, { "v", { ov[0], ov[1], ov[2] } }, { "o", { oo[0], oo[1], oo[2] } } };
     }
+  // the plane handed to the 2-D overload: mostly one inside the support
+  c["plane2d"] = s.chance(3, 4) ? int(s.range(lo[0], hi[0])) : int(s.range(0, n[0] - 1));
   return c;
 }
 
 json
 gen(Src& s, int size)
 {
-  return s.chance(1, 2) ? gen_ssrb(s, size) : gen_zoom(s, size);
+  const long k = s.range(1, 100);
+  if (k <= 30)
+    return gen_ssrb(s, size);
+  if (k <= 60)
+    return gen_zoom(s, size);
+  if (k <= 76)
+    return c15x::gen_overlap(s, size);
+  if (k <= 86)
+    return c15x::gen_viewgram(s, size);
+  if (k <= 93)
+    return c15x::gen_issrb(s, size);
+  return c15x::gen_extend(s, size);
 }
 
 Result
 check(const json& c)
 {
   vg::quiet();
-  if (c["part"].get<std::string>() == "ssrb")
+  const std::string part = c["part"].get<std::string>();
+  if (part == "ssrb")
     return check_ssrb(c);
+  if (part == "overlap")
+    return c15x::check_overlap(c);
+  if (part == "viewgram")
+    return c15x::check_viewgram(c);
+  if (part == "issrb")
+    return c15x::check_issrb(c);
+  if (part == "extend")
+    return c15x::check_extend(c);
   try
     {
       return check_zoom(c);
@@ -1268,6 +1599,15 @@ nontrivial(const json& c)
       const int changed = (c["nseg"].get<int>() > 1) + (c["nviews"].get<int>() > 1) + (c["ntof"].get<int>() > 1);
       return changed >= 2 && c["n_events"].get<long>() >= 5;
     }
+  const std::string part = c["part"].get<std::string>();
+  if (part == "overlap") // a real resampling: zoom != 1 (or irregular boxes) and a shift
+    return c["form"].get<std::string>() == "iter" ? true : (std::fabs(c["zoom"].get<double>() - 1.) > 1e-3 && c["offset"].get<double>() != 0.);
+  if (part == "viewgram")
+    return c["pdi"]["arccorr"].get<bool>() && std::fabs(c["zoom"].get<double>() - 1.) > 1e-3 && (c["xoff"].get<double>() != 0. || c["yoff"].get<double>() != 0.);
+  if (part == "issrb") // oblique output segments
+    return c["pdi4"]["max_delta"].get<int>() > (c["pdi4"]["span"].get<int>() - 1) / 2;
+  if (part == "extend")
+    return (c["view_ext"].get<int>() > 0) + (c["axial_ext"].get<int>() > 0) + (c["tang_ext"].get<int>() > 0) >= 2;
   // zoom with non-unit factors on >= 2 axes and a non-zero offset
   int non_unit = 0;
   bool offset = false;
@@ -1279,6 +1619,26 @@ nontrivial(const json& c)
         offset = true;
     }
   return non_unit >= 2 && offset;
+}
+
+//! known findings (see c15_more.h); the generator keeps these input classes out by construction, the probes under
+//! known/C15/ are replayed with VERIF_NO_EXCLUDE=1
+std::string
+known_signature(const json& c)
+{
+  if (no_exclude)
+    return "";
+  if (c15x::overlap_is_known_F5(c))
+    return c15x::SIG_F5;
+  // BEGIN-KNOWN-F6
+  if (c15x::extend_is_known_F6(c))
+    return c15x::SIG_F6;
+  // END-KNOWN-F6
+  // BEGIN-KNOWN-F7
+  if (c15x::overlap_is_known_F7(c))
+    return c15x::SIG_F7;
+  // END-KNOWN-F7
+  return "";
 }
 
 std::vector<json>
@@ -1335,6 +1695,9 @@ the_property()
   p.check = check;
   p.nontrivial = nontrivial;
   p.fixed_cases = fixed_cases;
-  p.rule = "ssrb: at least two of (segments, views, TOF bins) combined and >= 5 detector pairs; zoom: non-unit factor on >= 2 axes and a non-zero offset";
+  p.known_signature = known_signature;
+  p.rule = "ssrb: at least two of (segments, views, TOF bins) combined and >= 5 detector pairs; zoom: non-unit factor on >= 2 axes and a non-zero offset; "
+           "overlap: zoom != 1 and offset != 0, or irregular boxes; viewgram: arc-corrected data, zoom != 1 and a non-zero offset; issrb: output with oblique "
+           "segments; extend: at least two of the three extensions > 0";
   return p;
 }
